@@ -43,16 +43,23 @@ def run(tier):
         if rv.violated != "ReachesDeadline":
             raise vlib.ToolError("vacuity probe: no state at or after the deadline is reachable in the healthy model")
         drift = 0
-        for (name, n, q, t) in (("healthy3", 3, 300, 4000), ("healthy5", 5, 60, 800), ("healthy4", 4, 60, 800), ("healthy2", 2, 60, 800)):
+        # the *div profiles: clients append during the fault-ridden prefix, so the logs differ when the network heals
+        for (name, n, q, t, extra) in (("healthy3", 3, 300, 4000, []), ("healthy5", 5, 60, 800, []), ("healthy4", 4, 60, 800, []),
+                                       ("healthy2", 2, 60, 800, []),
+                                       ("healthy3div", 3, 200, 3000, ["--chaos-appends", 3, "--max-chaos", 160]),
+                                       ("healthy5div", 5, 40, 600, ["--chaos-appends", 3, "--max-chaos", 200]),
+                                       # a second timing configuration: heartbeats more frequent than the election factor
+                                       ("healthy3div_hb250", 3, 150, 2000, ["--chaos-appends", 3, "--max-chaos", 160, "--hb", 250])):
+            timing = "_hb250" if name.endswith("_hb250") else ""
             programs = t if thorough else q
             pw = os.path.join(work, name)
-            summs, files, died = vlib.run_chunked(vraft, "healthy", ["--seed", vlib.seed(), "--n", n], programs,
+            summs, files, died = vlib.run_chunked(vraft, "healthy", ["--seed", vlib.seed(), "--n", n] + extra, programs,
                                                   max(10, programs // 12), pw, jobs=8, timeout=900)
             if died:
                 raise vlib.ToolError("vraft healthy died: %s" % died[:2])
             trace = os.path.join(pw, "trace.ndjson")
             vlib.concat_traces(files, trace)
-            v = raftlib.validate(trace, cfg=raftcheck.cfg_for(n, False), tag="c30" + name)
+            v = raftlib.validate(trace, cfg=raftcheck.cfg_for(n, False, timing), tag="c30" + name)
             ms = vlib.sum_keys(summs, ["programs", "chaos_steps", "healthy_rounds", "appends"])
             log("[C30] %s runs=%d accepted=%d rejected=%d events=%d property-violations=%d tlc=%.0fs %s" %
                 (name, v["runs"], v["accepted"], len(v["rejections"]), v["events"], len(v["props"]), v["wall"], ms))
@@ -69,7 +76,7 @@ def run(tier):
                     "deciding HealthyProgress on the observed states" % (len(v["rejections"]), v["runs"], x["run"], x["event_index"],
                                                                         vlib.short(x["event"], 260)))
                 stats["drift_samples"].append({"profile": name, "event": x["event"]})
-                props = raftlib.validate(trace, cfg=raftcheck.cfg_for(n, True), tag="c30abs" + name)["props"]
+                props = raftlib.validate(trace, cfg=raftcheck.cfg_for(n, True, timing), tag="c30abs" + name)["props"]
             stats["violations_seen"] += raftcheck.report_props(PROP, verdict, props, "healthy schedules (%s)" % name)
             if not stats["samples"]:
                 evs = vlib.read_ndjson(trace)
